@@ -114,6 +114,25 @@ def _write_replay(prop, idx, ob):
     return path
 
 
+def _explain(report, kinds, backends, all_proved, known_hit):
+    parts = []
+    for k, label in (('D', 'deductive obligations (VCs / RegLan / effect inclusions generated from the real source, for all inputs)'),
+                     ('T', 'exact obligations over a complete finite domain (tables / classes / live patterns)'),
+                     ('B', 'bounded stand-in obligations (run-time contracts over the stated scope; never counted as proved)')):
+        if k in kinds:
+            d = kinds[k]
+            parts.append('%d/%d %s discharged' % (d['discharged'], d['obligations'], label))
+    be = ', '.join('%s: %d in %.1fs' % (b, v['obligations'], v['time_s']) for b, v in sorted(backends.items()))
+    txt = '; '.join(parts) + '. Back ends: ' + be + '.'
+    if not all_proved:
+        txt += (' Level is "other" and not "proof" because the property is not decided by D/T obligations alone: the '
+                'contracts listed under functions_under_contract are discharged, the rest of the property rests on the '
+                'bounded obligations (see rule / bounded_scope) and on the assumptions listed.')
+    if known_hit:
+        txt += ' %d refuted obligation(s) match listed known findings of the unchanged tree.' % len(known_hit)
+    return txt
+
+
 def finish(report, level_if_all_proved="proof"):
     """Print verdict lines, write evidence, return the exit code."""
     prop = report.prop
@@ -182,7 +201,7 @@ def finish(report, level_if_all_proved="proof"):
         undecided=[o.to_json() for o in report.obs if o.status == UNDECIDED],
         refuted=[o.to_json() for o in report.obs if o.status == REFUTED][:40],
         known_findings_hit=sorted({"%s :: %s" % (o.name, o.signature) for o, _ in known_hit}),
-        explanation=report.extra.pop("explanation", ""),
+        explanation=report.extra.pop("explanation", "") or _explain(report, kinds, backends, all_proved, known_hit),
         samples=[o.to_json() for o in report.obs[:6]] +
                 [s for s in report.bounded.get("samples", [])][:6],
         obligation_list=[dict(name=o.name, kind=o.kind, backend=o.backend, status=o.status,
